@@ -180,6 +180,12 @@ def run(shard, ctx):
                 if rng.random() < 0.5:
                     b2 = rng.choice(roots)
                     y, t2 = [b2] + y, t2 + "/" + b2
+            if i % 3 == 0:
+                # alias spellings inside either half (min/mi/- for m, maj/ma for M)
+                def respell(t, r_, s_):
+                    al = CT.aliases(s_)
+                    return t.replace(r_ + s_, r_ + rng.choice(al), 1) if al else t
+                t1, t2 = respell(t1, r1, s1), respell(t2, r2, s2)
             text = t1 + "|" + t2
             exp = CT.polychord(x, y)
             st, c = ctx.call(chords.from_shorthand, text)
